@@ -68,13 +68,14 @@ type C14Step struct {
 }
 
 type C14Case struct {
-	Cfg      EngCfg     `json:"cfg"`
-	Env      *Env       `json:"env"`
-	RootRel  string     `json:"root_rel"`                // e.g. "r1/r2/root.html" below the case directory
-	Pathless bool       `json:"pathless_root,omitempty"` // the root is parsed WITHOUT a source path (ParseString); includes then resolve against the working directory, which is the root directory for the duration of the case
-	Root     []*TNode   `json:"root"`
-	Source   string     `json:"source"`
-	Files    []*C14File `json:"files"`
+	Cfg        EngCfg            `json:"cfg"`
+	Env        *Env              `json:"env"`
+	RootRel    string            `json:"root_rel"`                // e.g. "r1/r2/root.html" below the case directory
+	Pathless   bool              `json:"pathless_root,omitempty"` // the root is parsed WITHOUT a source path (ParseString); includes then resolve against the working directory, which is the root directory for the duration of the case
+	ArgTargets map[string]string `json:"arg_targets,omitempty"`   // include argument expression -> the string it denotes (known by construction)
+	Root       []*TNode          `json:"root"`
+	Source     string            `json:"source"`
+	Files      []*C14File        `json:"files"`
 	// a second root in a sibling directory that includes the same files (and has
 	// files of the same names of its own): nested includes must resolve against
 	// whichever root is being rendered
@@ -122,7 +123,8 @@ func genC14(seed uint64, r *Rng, idx, vecs int) *C14Case {
 		cs.Env.Names = append(cs.Env.Names, fmt.Sprintf("incd%d", i))
 		cs.Env.Vals = append(cs.Env.Vals, &LV{T: "drop", A: []*LV{{T: "drop", A: []*LV{{T: "str", S: f.Rel}}}}})
 	}
-	argsFor := func(i int) []string {
+	cs.ArgTargets = map[string]string{}
+	argsFor0 := func(i int) []string {
 		f := cs.Files[i]
 		stem := strings.TrimSuffix(f.Rel, ".html")
 		return []string{quote(f.Rel), quote(f.Rel), fmt.Sprintf("inc%d", i), fmt.Sprintf(`stem%d | append: ".html"`, i),
@@ -130,6 +132,23 @@ func genC14(seed uint64, r *Rng, idx, vecs int) *C14Case {
 			quote(stem) + ` | append: ".html"`, `'` + stem + `' | append: '.html'`, quote("zz"+f.Rel) + ` | remove: "zz"`,
 			quote("zz"+f.Rel) + ` | replace: "zz", ""`, quote(f.Rel) + ` | slice: 0, 99`,
 			fmt.Sprintf("incp%d", i), fmt.Sprintf("incd%d", i), quote("y//../" + f.Rel)}
+	}
+	argsFor := func(i int) []string {
+		as := argsFor0(i)
+		for _, a := range as {
+			// what each expression denotes is known by construction (every form is some spelling of f.Rel)
+			rel := cs.Files[i].Rel
+			switch {
+			case strings.HasPrefix(a, `"./`):
+				rel = "./" + rel
+			case strings.HasPrefix(a, `"x/../`):
+				rel = "x/../" + rel
+			case strings.HasPrefix(a, `"y//../`):
+				rel = "y//../" + rel
+			}
+			cs.ArgTargets[a] = rel
+		}
+		return as
 	}
 	// file contents: file i may include files j>i if it lives in the root's directory
 	for i := n - 1; i >= 0; i-- {
@@ -249,6 +268,7 @@ func genC14(seed uint64, r *Rng, idx, vecs int) *C14Case {
 type snapRec struct {
 	id     int
 	target any
+	args   string
 	evalOK bool
 	vars   map[string]any
 	closed bool
@@ -273,7 +293,7 @@ func registerSnap(e *liquid.Engine) {
 			rec.vars[k] = v
 		}
 		v, err := ctx.EvaluateString(ctx.TagArgs())
-		rec.target, rec.evalOK = v, err == nil
+		rec.target, rec.evalOK, rec.args = v, err == nil, ctx.TagArgs()
 		st.recs = append(st.recs, rec)
 		st.stack = append(st.stack, rec.id)
 		return fmt.Sprintf("\x01%d\x02", rec.id), nil
@@ -288,7 +308,7 @@ func registerSnap(e *liquid.Engine) {
 			rec.vars[k] = v
 		}
 		v, err := ctx.EvaluateString(ctx.TagArgs())
-		rec.target, rec.evalOK = v, err == nil
+		rec.target, rec.evalOK, rec.args = v, err == nil, ctx.TagArgs()
 		st.recs = append(st.recs, rec)
 		return "", nil
 	})
@@ -642,6 +662,17 @@ func (x *c14Run) judge(o *c14Out, unreadable map[string]bool) {
 			break
 		}
 		target, isStr := rec.target.(string)
+		if want, known := x.cs.ArgTargets[rec.args]; known {
+			// the harness knows what this expression denotes; the engine's own evaluation
+			// of it is not trusted as the reference
+			if !rec.evalOK || !isStr || target != want {
+				if rec.closed || res.OK {
+					continue // evaluated differently only inside the snap tag; judged by what include did
+				}
+				o.clause, o.detail = "include-argument-is-its-string-value", fmt.Sprintf("include argument %s denotes the string %q, but the engine evaluates it to %v (%T) and the render fails with %s", rec.args, want, rec.target, rec.target, res.Err)
+				return
+			}
+		}
 		if !rec.evalOK {
 			mustFail = "include argument does not evaluate"
 			break
